@@ -3,6 +3,7 @@ use crate::ctx::{Ctx, Outcome, Tier};
 use serde_json::Value;
 
 pub mod c14;
+pub mod c15;
 pub mod c20;
 pub mod script;
 
@@ -38,7 +39,7 @@ pub trait Prop {
 }
 
 pub fn all() -> Vec<Box<dyn Prop>> {
-    vec![Box::new(c14::C14), Box::new(c20::C20)]
+    vec![Box::new(c14::C14), Box::new(c15::C15), Box::new(c20::C20)]
 }
 
 pub fn lookup(id: &str) -> Option<Box<dyn Prop>> {
